@@ -237,9 +237,32 @@ func ruleR4_8(w *World, r *Report) {
 			}
 			rets++
 			fields, _ := returnedStructFields(ret.Results[0])
-			if v, has := fields["Coeffs"]; !has || v != ssa.Value(coeffs) {
-				okAll = false
+			if v, has := fields["Coeffs"]; has && v == ssa.Value(coeffs) {
+				return
 			}
+			// built by a shared constructor of the package (`return newConstr(lits, coeffs, atLeast, weight)`): the
+			// argument handed in for the parameter that becomes Coeffs must be the list
+			if c, isC := ret.Results[0].(*ssa.Call); isC {
+				if g := c.Call.StaticCallee(); g != nil && w.PkgName(g) == "maxsat" && len(g.Blocks) > 0 {
+					okG := false
+					allInstrs(g, func(i2 ssa.Instruction) {
+						r2, isR := i2.(*ssa.Return)
+						if !isR || len(r2.Results) != 1 {
+							return
+						}
+						gf, _ := returnedStructFields(r2.Results[0])
+						if pv, isP := gf["Coeffs"].(*ssa.Parameter); isP {
+							if pi := paramIndex(g, pv); pi >= 0 && pi < len(c.Call.Args) && c.Call.Args[pi] == ssa.Value(coeffs) {
+								okG = true
+							}
+						}
+					})
+					if okG {
+						return
+					}
+				}
+			}
+			okAll = false
 		})
 		r.Check(okAll && rets > 0, "R4.8", key, w.Pos(fn.Pos()), "Coeffs is the parameter", "the constraint returned does not carry the coefficient list it was given (dropped or replaced on some path): a pseudo-boolean constraint is then read as a plain clause / cardinality constraint over all its literals")
 	}
